@@ -269,6 +269,7 @@ type env struct {
 	mu        sync.Mutex
 	listeners map[string]*listener
 	nl        int
+	excl      sync.RWMutex // bridged histories: shared; a retry after a timeout: exclusive
 }
 
 func (e *env) dial(h history) (*wire.Conn, error) {
@@ -488,12 +489,41 @@ func (e *env) sentinel(c *wire.Conn, h history, j int) *failure {
 	return nil
 }
 
-func (e *env) runHistory(h history) {
+// runHistoryRetry runs a history; an attempt that ends in a hard timeout (the
+// only wall-clock exit there is) is repeated once with every other bridged
+// history paused, which makes the goroutine-dump stall probe exact: a genuine
+// hang then comes back as a violation with a witness, a load artefact passes.
+func (e *env) runHistoryRetry(h history) {
+	bridged := h.Transport != "pipe"
+	if bridged {
+		e.excl.RLock()
+	}
+	why := e.runHistory(h)
+	if bridged {
+		e.excl.RUnlock()
+	}
+	if why == "" {
+		return
+	}
+	e.r.Count("timeouts.first-attempt", 1)
+	e.excl.Lock()
+	why2 := e.runHistory(h)
+	e.excl.Unlock()
+	if why2 != "" {
+		e.r.Inconclusive("timed out twice (second time alone on the machine's bridged transports): " + why2)
+		return
+	}
+	e.r.Count("timeouts.passed-on-exclusive-retry", 1)
+}
+
+// runHistory returns "" when the history reached a verdict (held or
+// violated) and the reason when it ran into a hard timeout.
+func (e *env) runHistory(h history) (timedOut string) {
 	r := e.r
 	c, err := e.dial(h)
 	if err != nil {
 		r.Inconclusive("dial failed: " + err.Error())
-		return
+		return ""
 	}
 	defer c.Close()
 	r.Class("transport." + h.Transport)
@@ -509,7 +539,7 @@ func (e *env) runHistory(h history) {
 	var seq []string
 	report := func(j int, st step, f *failure) {
 		if f.inconc {
-			r.Inconclusive(fmt.Sprintf("%s on %s after %s", f.what, h.Transport, st.Class))
+			timedOut = fmt.Sprintf("%s on %s after %s", f.what, h.Transport, st.Class)
 			// not a verdict, but leave something to look at in the log
 			fmt.Printf("TIMEOUT-DIAG history=%d step=%d transport=%s pending_out=%d server_returned=%v\n%s\n", h.Index, j, h.Transport,
 				c.PendingOut(), c.ServerReturned(), wire.Goroutines("vgirpc."))
@@ -534,15 +564,15 @@ func (e *env) runHistory(h history) {
 		r.Evals(1)
 		if f := e.doStep(c, h, st); f != nil {
 			report(j, st, f)
-			return
+			return timedOut
 		}
 		if c.ServerReturned() {
 			report(j, st, &failure{sig: "serve-loop-returned-early", what: "serve loop returned although the client has not closed the connection"})
-			return
+			return ""
 		}
 		if f := e.sentinel(c, h, j); f != nil {
 			report(j, st, f)
-			return
+			return timedOut
 		}
 	}
 	// end of session: nothing may be left, and the serve loop must end.
@@ -555,7 +585,7 @@ func (e *env) runHistory(h history) {
 			report(len(h.Steps)-1, last, &failure{sig: "session-end:serve-loop-did-not-return", what: "serve loop still running 10 s after client EOF",
 				wit: map[string]any{"goroutines": wire.Goroutines("vgirpc.")}})
 		} else {
-			r.Inconclusive("session end not observed: " + lerr.Error())
+			return "session end not observed on " + h.Transport + ": " + lerr.Error()
 		}
 	case len(left) > 0:
 		report(len(h.Steps)-1, last, &failure{sig: "session-end:extra-bytes", what: fmt.Sprintf("%d unsolicited bytes after the last response", len(left)),
@@ -564,10 +594,11 @@ func (e *env) runHistory(h history) {
 		if c.WaitServer(5 * time.Second) {
 			r.Class("session.ended-on-client-eof")
 		} else {
-			r.Inconclusive("serve function did not return within 5 s of EOF delivery")
+			return "serve function did not return within 5 s of EOF delivery on " + h.Transport
 		}
 	}
 	r.Case(mon.Hash(h.Transport, fmt.Sprint(h.ProtoSet, h.Hook, h.Chop), strings.Join(seq, ",")))
+	return ""
 }
 
 func tail(b []byte, n int) []byte {
@@ -596,8 +627,8 @@ func main() {
 	svc.SetSink(log)
 	e := &env{r: r, log: log, listeners: map[string]*listener{}}
 
-	nNative := r.N(200, 20000)
-	nBridged := r.N(100, 9000) // split over iopipe / unix / tcp
+	nNative := r.N(200, 8000)
+	nBridged := r.N(100, 3600) // split over iopipe / unix / tcp
 	workers := 2
 	bworkers := 1
 	if r.Thorough() {
@@ -618,7 +649,7 @@ func main() {
 					if i < 2 {
 						r.Sample(h)
 					}
-					e.runHistory(h)
+					e.runHistoryRetry(h)
 				}
 			}(wi)
 		}
